@@ -3,6 +3,7 @@ import DarkluaModel.Rules.NoLocalFunction
 import DarkluaModel.Rules.FunctionToAssign
 import DarkluaModel.Rules.RemoveMethodCall
 import DarkluaModel.Rules.ConvertSquareRootCall
+import DarkluaModel.C16.Whole
 /-!
 # C16 — the optional refactoring rules preserve program behaviour: property theorems
 
@@ -15,37 +16,37 @@ Every statement is about the HOOK of the rule at one node, in every context: exa
 denotations (control outcome, values, whole state, trace). Where exact equality is false the
 reason is stated and is one of: (D) a defect of the rule (`_full_false` + `_partial` under a
 hypothesis); (A) only allocation order / captured-environment contents differ, unobservably —
-then the theorem states exactly which part of the state differs. The generic visitor theorem
-(`Shared/VisitorSound.lean`) lifts hooks that are exact for EVERY input (`HooksExact`); none of
-the five rules qualifies — each hook is exact only under one of the hypotheses below, or changes
-closure numbering / captured environments — so no whole-rule corollary is stated here and the
-whole-rule claim is carried by the execution oracle of the harness.
+then the theorem states exactly which part of the state differs.
+
+WHOLE-RULE theorems (observable outcome `Sem.runProgram` of every program satisfying a decidable
+syntactic hypothesis, all number systems / oracles / levels): `local_function_rule_refines` and
+`function_to_assign_rule_refines`, through stage 3 of the generic lifting
+(`Shared/VisitorSoundHeap.lean`: cells up to renumbering, closure environments up to dead names)
+and the guarded congruence family of `C16/Guard.lean` (hooks need to be sound on good inputs only).
+Not lifted: `group_local_assignment` (the merge is a statement-LIST step whose soundness in the heap
+relation needs a proof inside that relation: evaluation of the second initialisers commutes with
+the allocation of the first cells), `remove_method_call` (C16-F2; its literal-receiver part would
+need a hypothesis "no method call on an identifier", which excludes essentially every program),
+`convert_square_root_call` (C16-F3). For those the whole-rule claim is carried by the oracle.
 -/
 namespace DarkluaModel.C16
 open Sem Rules
 
 /-! ## group_local_assignment -/
 
-/-- full strength: the block hook of `group_local_assignment` never changes what a block does -/
-def group_refines_full : Prop :=
-  ∀ (N : NumOps) (call : CallFn N) (ρ : ExtOracle N) (k : Nat) (env : Env N) (b : Block) (σ : State N),
-    execB call ρ k env (GroupLocal.processBlock b ()).1 σ = execB call ρ k env b σ
+/-! F17 (`local a = f(), g()` merged with the next `local`, shifting values) is FIXED in /repo
+(`should_merge` now refuses a first statement whose value count differs from its variable count);
+the model follows the fixed code, and `H₁₆` is no longer a hypothesis on programs: it is implied by
+the rule's own decision (`GroupLocal.shouldMerge_h16`). What remains hypothetical below is only the
+allocation-order / captured-environment part (A), see `Rules/GroupLocal.lean`. -/
 
-/-- (D) F17: false. `local a = nil, true  local b = false  return b` returns `false`; the rule merges
-it into `local a, b = nil, true, false  return b`, which returns `true`. -/
-theorem group_refines_full_false : ¬ group_refines_full :=
-  GroupLocal.processBlock_not_exact
-
--- the witness is what the modelled hook really produces
-example : (GroupLocal.processBlock GroupLocal.f17Witness ()).1 =
-    .mk [.localAssign .loc [.mk "a" none, .mk "b" none] [.nil, .true, .false]] (some (.ret [.var "b"])) :=
+-- regression: the former F17 witness is now left alone by the hook
+example : (GroupLocal.processBlock GroupLocal.f17Witness ()).1 = GroupLocal.f17Witness :=
   GroupLocal.f17_rule_output
--- and it lies outside H₁₆
-example : GroupLocal.programOk GroupLocal.f17Witness = false := by decide
+example : GroupLocal.shouldMerge [.mk "a" none] [.nil, .true] [.false] = false := by decide
 
 /-- `group_refines_partial` — one merge step of the rule's loop, both statements with values.
-Under `H₁₆` (`h16`: the first statement has as many values as variables) the two statements and
-the merged one are exactly equal (success path), given that evaluating the second initialisers
+Whenever the rule decides to merge (`shouldMerge = true`) the two statements and the merged one are exactly equal (success path), given that evaluating the second initialisers
 before the first variables are bound yields the same values as after and commutes with binding
 them (`hframe`, `hcomm`: the semantic content of `should_merge`'s `FindVariables` check — see
 `Rules/GroupLocal.lean` for why this part is a hypothesis). Order of evaluation and multi-value
@@ -53,7 +54,7 @@ truncation are proved unconditionally inside. -/
 theorem group_refines_partial {N : NumOps} (call : CallFn N) (ρ : ExtOracle N) (k : Nat) (env : Env N)
     (k1 k2 : LocalKind) (ns1 ns2 : List TName) (vs1 vs2 : List Expr) (rest : List Stmt)
     (σ σ1 σ2 σ2' : State N) (ws1 ws2 : List (Val N))
-    (hH : GroupLocal.h16 ns1 vs1 = true) (hv1 : vs1 ≠ []) (hv2 : vs2 ≠ [])
+    (hS : GroupLocal.shouldMerge ns1 vs1 vs2 = true) (hv1 : vs1 ≠ []) (hv2 : vs2 ≠ [])
     (h1 : evalEs call ρ k env vs1 σ = .ok ws1 σ1)
     (h2 : evalEs call ρ k ⟨(bindLocals (GroupLocal.names ns1) ws1 env.locals σ1).1, env.varargs⟩ vs2
             (bindLocals (GroupLocal.names ns1) ws1 env.locals σ1).2 = .ok ws2 σ2')
@@ -63,7 +64,8 @@ theorem group_refines_partial {N : NumOps} (call : CallFn N) (ρ : ExtOracle N) 
     execSs call ρ k env (.localAssign k1 ns1 vs1 :: .localAssign k2 ns2 vs2 :: rest) σ
       = execSs call ρ k env
           (.localAssign k1 (GroupLocal.merge ns1 vs1 ns2 vs2).1 (GroupLocal.merge ns1 vs1 ns2 vs2).2 :: rest) σ :=
-  GroupLocal.merge_exact call ρ k env k1 k2 ns1 ns2 vs1 vs2 rest σ σ1 σ2 σ2' ws1 ws2 hH hv1 hv2 h1 h2 hframe hcomm
+  GroupLocal.merge_exact call ρ k env k1 k2 ns1 ns2 vs1 vs2 rest σ σ1 σ2 σ2' ws1 ws2
+    (GroupLocal.shouldMerge_h16 ns1 vs1 vs2 hS) hv1 hv2 h1 h2 hframe hcomm
 
 -- non-vacuity: `local a = true  local b = g` (g a global): all hypotheses hold, and the rule does merge
 example (σ : State unitOps) :
@@ -95,12 +97,13 @@ statement pads with `nil`s; exact with NO visibility hypothesis (nothing is eval
 first statement). -/
 theorem group_refines_partial_second_empty {N : NumOps} (call : CallFn N) (ρ : ExtOracle N) (k : Nat) (env : Env N)
     (k1 k2 : LocalKind) (ns1 ns2 : List TName) (vs1 : List Expr) (rest : List Stmt) (σ σ1 : State N)
-    (ws1 : List (Val N)) (hH : GroupLocal.h16 ns1 vs1 = true) (hv1 : vs1 ≠ []) (hn2 : ns2 ≠ [])
+    (ws1 : List (Val N)) (hS : GroupLocal.shouldMerge ns1 vs1 [] = true) (hv1 : vs1 ≠ []) (hn2 : ns2 ≠ [])
     (h1 : evalEs call ρ k env vs1 σ = .ok ws1 σ1) :
     execSs call ρ k env (.localAssign k1 ns1 vs1 :: .localAssign k2 ns2 [] :: rest) σ
       = execSs call ρ k env
           (.localAssign k1 (GroupLocal.merge ns1 vs1 ns2 []).1 (GroupLocal.merge ns1 vs1 ns2 []).2 :: rest) σ :=
-  GroupLocal.merge_exact_second_empty call ρ k env k1 k2 ns1 ns2 vs1 rest σ σ1 ws1 hH hv1 hn2 h1
+  GroupLocal.merge_exact_second_empty call ρ k env k1 k2 ns1 ns2 vs1 rest σ σ1 ws1
+    (GroupLocal.shouldMerge_h16 ns1 vs1 [] hS) hv1 hn2 h1
 
 example : GroupLocal.merge [.mk "a" none] [.true] [.mk "b" none, .mk "c" none] []
     = ([.mk "a" none, .mk "b" none, .mk "c" none], [.true, .nil, .nil]) := by
@@ -146,6 +149,33 @@ example : NoLocalFunction.converts "f"
     (.mk [] false none none [] [] (.mk [] (some (.ret [.call (.var "f") none .tuple []])))) = false := by decide
 example : NoLocalFunction.converts "f" (.mk [.mk "f" none] false none none [] [] (.mk [] (some (.ret [.var "f"])))) = true := by
   decide
+
+/-- **`local_function_rule_refines` (whole rule).** For every program in which no `local function f`
+has `f` among its own parameters (`Good nlfFlags`, decidable; type annotations ignored),
+`convert_local_function_to_assign` preserves the observable outcome. The excluded shape
+`local function f(f)` is converted by the rule too (correctly: see `local_function_lookups_agree`)
+but lies outside the lifting theorem (its dead sets are flow-insensitive). -/
+theorem local_function_rule_refines (b : Block) (hg : Guard.Good Whole.nlfFlags b = true)
+    {N : NumOps} (ρ : ExtOracle N) (n : Nat) (externs : List String) :
+    runProgram ρ n externs (NoLocalFunction.apply b) = runProgram ρ n externs b :=
+  Whole.local_function_rule_refines b hg ρ n externs
+
+/-- non-vacuity: `local function g(x) return x end  local function f(n) return f(n) end  return g(1)` —
+good, `g` is converted, the recursive `f` is not -/
+def nlfSample : Block :=
+  .mk [.localFn .loc "g" (.mk [.mk "x" none] false none none [] [] (.mk [] (some (.ret [.var "x"])))),
+       .localFn .loc "f" (.mk [.mk "n" none] false none none [] []
+         (.mk [] (some (.ret [.call (.var "f") none .tuple [.var "n"]]))))]
+    (some (.ret [.call (.var "g") none .tuple [.num 0]]))
+example : Guard.Good Whole.nlfFlags nlfSample = true := by decide
+example : NoLocalFunction.apply nlfSample =
+    .mk [.localAssign .loc [.mk "g" none] [.fn (.mk [.mk "x" none] false none none [] [] (.mk [] (some (.ret [.var "x"]))))],
+         .localFn .loc "f" (.mk [.mk "n" none] false none none [] []
+           (.mk [] (some (.ret [.call (.var "f") none .tuple [.var "n"]]))))]
+      (some (.ret [.call (.var "g") none .tuple [.num 0]])) := by
+  rfl
+example : Guard.Good Whole.nlfFlags
+    (.mk [.localFn .loc "f" (.mk [.mk "f" none] false none none [] [] (.mk [] none))] none) = false := by decide
 
 /-! ## convert_function_to_assignment -/
 
@@ -194,6 +224,32 @@ example : (FunctionToAssign.processStatement
   simp [FunctionToAssign.processStatement, FunctionToAssign.convert, FunctionToAssign.target,
     FunctionToAssign.keysOf, FunctionToAssign.withSelf, erase]
 example : FunctionToAssign.keysOf [] (some "m") = ["m"] := rfl
+
+/-- **`function_to_assign_rule_refines` (whole rule).** For every program whose function statements
+have at most one key after the root identifier (`function f`, `function a.f`, `function a:m` with
+its implicit `self`; `Good ftaFlags`, decidable), `convert_function_to_assignment` preserves the
+observable outcome. Longer names (`function a.b.c`) differ from the assignment only in the order
+"allocate the closure / walk `a.b`", i.e. in closure NUMBERING when an `__index` handler on the path
+creates closures — renumbering of closures is not covered by the lifting theorem. -/
+theorem function_to_assign_rule_refines (b : Block) (hg : Guard.Good Whole.ftaFlags b = true)
+    {N : NumOps} (ρ : ExtOracle N) (n : Nat) (externs : List String) :
+    runProgram ρ n externs (FunctionToAssign.apply b) = runProgram ρ n externs b :=
+  Whole.function_to_assign_rule_refines b hg ρ n externs
+
+/-- non-vacuity: `local t = {}  function t:m(x) return self end  function g() end` -/
+def ftaSample : Block :=
+  .mk [.localAssign .loc [.mk "t" none] [.table []],
+       .function ["t"] (some "m") (.mk [.mk "x" none] false none none [] [] (.mk [] (some (.ret [.var "self"])))),
+       .function ["g"] none (.mk [] false none none [] [] (.mk [] none))] none
+example : Guard.Good Whole.ftaFlags ftaSample = true := by decide
+example : FunctionToAssign.apply ftaSample =
+    .mk [.localAssign .loc [.mk "t" none] [.table []],
+         .assign [.field (.var "t") "m"]
+           [.fn (.mk [.mk "self" none, .mk "x" none] false none none [] [] (.mk [] (some (.ret [.var "self"]))))],
+         .assign [.var "g"] [.fn (.mk [] false none none [] [] (.mk [] none))]] none := by
+  rfl
+example : Guard.Good Whole.ftaFlags
+    (.mk [.function ["a", "b", "c"] none (.mk [] false none none [] [] (.mk [] none))] none) = false := by decide
 
 /-! ## remove_method_call -/
 
